@@ -721,16 +721,32 @@ fn generic_walk(ctx: &mut Ctx, r: &mut SplitMix64, q: &mut Q, other: Option<&mut
             }
             10 => {
                 if let Some(o) = other.as_deref_mut() {
-                    // replica swap through the public raw call (cutoffs may differ)
+                    // direct replica swap (cutoffs may differ): inherent call or the SwapManagers trait
+                    let via_trait = r.coin();
+                    let name = if via_trait { "swap_graphs" } else { "swap_manager_and_state" };
                     let (bq, bo) = (snap_q(q), snap_q(o));
-                    q.swap_manager_and_state(o);
-                    let (aq, ao) = (snap_q(q), snap_q(o));
-                    let fold = fold_q(q);
-                    let hv = generic_view(q);
-                    emit_case(ctx, "move", "swap_manager_and_state", &hv, q.get_cutoff(), &bo, &aq, q.get_manager_ref(), fold, Ok(()));
-                    let fold = fold_q(o);
-                    let hv = generic_view(o);
-                    emit_case(ctx, "move", "swap_manager_and_state", &hv, o.get_cutoff(), &bq, &ao, o.get_manager_ref(), fold, Ok(()));
+                    let mut swapped = true;
+                    if via_trait {
+                        if SwapManagers::can_swap_graphs(&*q, &*o).is_ok() {
+                            SwapManagers::swap_graphs(q, o);
+                        } else {
+                            swapped = false;
+                        }
+                    } else {
+                        q.swap_manager_and_state(o);
+                    }
+                    if swapped {
+                        if bq.len != bo.len {
+                            stat(&format!("{}.unequal_lengths", name), 1);
+                        }
+                        let (aq, ao) = (snap_q(q), snap_q(o));
+                        let fold = fold_q(q);
+                        let hv = generic_view(q);
+                        emit_case(ctx, "move", name, &hv, q.get_cutoff(), &bo, &aq, q.get_manager_ref(), fold, cutoff_covers(q.get_cutoff(), &aq));
+                        let fold = fold_q(o);
+                        let hv = generic_view(o);
+                        emit_case(ctx, "move", name, &hv, o.get_cutoff(), &bq, &ao, o.get_manager_ref(), fold, cutoff_covers(o.get_cutoff(), &ao));
+                    }
                 }
                 true
             }
@@ -745,6 +761,19 @@ fn generic_walk(ctx: &mut Ctx, r: &mut SplitMix64, q: &mut Q, other: Option<&mut
         if !ok {
             return;
         }
+    }
+}
+
+/// After any swap a sampler must sweep over the whole string it received: its own cutoff has to
+/// reach at least the last occupied slot + 1 (and the container length never exceeds what the
+/// next sweep covers only if the cutoffs were raised to the common maximum).
+fn cutoff_covers(cutoff: usize, a: &Snap) -> Result<(), String> {
+    match a.ops.last() {
+        Some(op) if cutoff < op.p + 1 => Err(format!(
+            "C06 after the swap the sampler's cutoff {} does not reach the received string's last occupied slot {}",
+            cutoff, op.p
+        )),
+        _ => Ok(()),
     }
 }
 
@@ -851,6 +880,123 @@ fn field_ladder_scenario(ctx: &mut Ctx, r: &mut SplitMix64, rounds: usize) {
     }
 }
 
+/// One sampler run hot for a while, the other fresh (small cutoff); a direct trait-level exchange
+/// (`can_swap_graphs` + `swap_graphs`, sometimes the inherent call), then diagonal steps / time
+/// steps of each — Ising and generic implementations of `SwapManagers`.
+fn hot_cold_swap_scenario(ctx: &mut Ctx, r: &mut SplitMix64) {
+    // Ising
+    {
+        let spec = gen_ising_spec(r, None);
+        let c_hot = r.range(2, 8) as usize;
+        let mut hot = build_ising(r, &spec, c_hot);
+        let c_cold = r.range(1, 4) as usize;
+        let mut cold = build_ising(r, &spec, c_cold);
+        emit_init_g(ctx, &hot);
+        emit_init_g(ctx, &cold);
+        for _ in 0..r.range(3, 8) {
+            let rvb = rvb_flag(&hot);
+            if !ising_timestep(ctx, &mut hot, *r.pick(&[2.0, 4.0, 8.0]), rvb) {
+                return;
+            }
+        }
+        for _ in 0..r.range(0, 1) {
+            let rvb = rvb_flag(&cold);
+            if !ising_timestep(ctx, &mut cold, 0.25, rvb) {
+                return;
+            }
+        }
+        let via_trait = r.chance(3, 4);
+        let name = if via_trait { "swap_graphs" } else { "swap_manager_and_state" };
+        let (bh, bc) = (snap_g(&hot), snap_g(&cold));
+        if bh.len != bc.len {
+            stat(&format!("{}.unequal_lengths", name), 1);
+        }
+        if via_trait {
+            if SwapManagers::can_swap_graphs(&cold, &hot).is_err() {
+                return;
+            }
+            if r.coin() {
+                SwapManagers::swap_graphs(&mut cold, &mut hot);
+            } else {
+                SwapManagers::swap_graphs(&mut hot, &mut cold);
+            }
+        } else {
+            cold.swap_manager_and_state(&mut hot);
+        }
+        for (g, b) in [(&cold, &bh), (&hot, &bc)] {
+            let a = snap_g(g);
+            let fold = fold_g(g);
+            let hv = ising_view(g);
+            emit_case(ctx, "move", name, &hv, g.get_cutoff(), b, &a, g.get_manager_ref(), fold, cutoff_covers(g.get_cutoff(), &a));
+        }
+        for _ in 0..r.range(2, 4) {
+            let beta = gen_beta(r);
+            if !ising_single(ctx, &mut cold, "diag", "single_diagonal_step", |g| g.single_diagonal_step(beta)) {
+                return;
+            }
+            let rvb = rvb_flag(&hot);
+            if !ising_timestep(ctx, &mut hot, beta, rvb) {
+                return;
+            }
+            if !ising_single(ctx, &mut cold, "icluster", "single_cluster_step", |g| {
+                g.single_cluster_step();
+            }) {
+                return;
+            }
+        }
+    }
+    // generic
+    {
+        let kind = *r.pick(&[0u64, 1, 4, 6]);
+        let nvars = if kind == 6 { 3 } else { r.range(2, 4) as usize };
+        let loops = kind != 1;
+        let seed_r = r.next();
+        let (mut r1, mut r2) = (SplitMix64::new(seed_r), SplitMix64::new(seed_r));
+        let (s1, s2) = (gen_state(r, nvars), gen_state(r, nvars));
+        let mut hot = build_generic(&mut r1, kind, nvars, s1, loops);
+        let mut cold = build_generic(&mut r2, kind, nvars, s2, loops);
+        if r.coin() {
+            cold.set_cutoff(r.range(1, 3) as usize);
+        }
+        emit_init_q(ctx, &hot);
+        emit_init_q(ctx, &cold);
+        for _ in 0..r.range(3, 8) {
+            if !generic_timestep(ctx, &mut hot, *r.pick(&[2.0, 4.0, 8.0])) {
+                return;
+            }
+        }
+        let via_trait = r.chance(3, 4);
+        let name = if via_trait { "swap_graphs" } else { "swap_manager_and_state" };
+        let (bh, bc) = (snap_q(&hot), snap_q(&cold));
+        if bh.len != bc.len {
+            stat(&format!("{}.unequal_lengths", name), 1);
+        }
+        if via_trait {
+            if SwapManagers::can_swap_graphs(&cold, &hot).is_err() {
+                return;
+            }
+            SwapManagers::swap_graphs(&mut cold, &mut hot);
+        } else {
+            cold.swap_manager_and_state(&mut hot);
+        }
+        for (q, b) in [(&cold, &bh), (&hot, &bc)] {
+            let a = snap_q(q);
+            let fold = fold_q(q);
+            let hv = generic_view(q);
+            emit_case(ctx, "move", name, &hv, q.get_cutoff(), b, &a, q.get_manager_ref(), fold, cutoff_covers(q.get_cutoff(), &a));
+        }
+        for _ in 0..r.range(2, 4) {
+            let beta = gen_beta(r);
+            if !generic_single(ctx, &mut cold, "diag", "diagonal_update", |q| q.diagonal_update(beta)) {
+                return;
+            }
+            if !generic_timestep(ctx, &mut hot, beta) {
+                return;
+            }
+        }
+    }
+}
+
 fn ising_scenario(ctx: &mut Ctx, r: &mut SplitMix64, ncalls: usize, force_h: Option<bool>) {
     let spec = gen_ising_spec(r, force_h);
     let nrep = r.range(2, 3) as usize;
@@ -890,21 +1036,51 @@ fn ising_scenario(ctx: &mut Ctx, r: &mut SplitMix64, ncalls: usize, force_h: Opt
             }
             11 | 12 => tempering_step_cases(ctx, &mut tc),
             13 => {
-                // raw public swap between two replicas (cutoffs may differ)
+                // direct public swap between two replicas (cutoffs may differ): the inherent
+                // `swap_manager_and_state`, or the `SwapManagers` trait a user-written exchange
+                // schedule would use (`can_swap_graphs` + `swap_graphs`, `get/set_op_cutoff`)
                 let j = (i + 1) % nrep;
+                let via_trait = r.coin();
+                if via_trait && r.chance(1, 4) {
+                    // cutoff negotiation through the trait (growth only)
+                    let g = &mut tc.graph_mut()[i].0;
+                    let b = snap_g(g);
+                    let c = SwapManagers::get_op_cutoff(g) + r.range(0, 3) as usize;
+                    SwapManagers::set_op_cutoff(g, c);
+                    let a = snap_g(g);
+                    let fold = fold_g(g);
+                    let hv = ising_view(g);
+                    emit_case(ctx, "move", "set_op_cutoff", &hv, g.get_cutoff(), &b, &a, g.get_manager_ref(), fold, Ok(()));
+                }
                 let (bi, bj) = (snap_g(&tc.graph_ref()[i].0), snap_g(&tc.graph_ref()[j].0));
+                let name = if via_trait { "swap_graphs" } else { "swap_manager_and_state" };
+                let mut swapped = true;
                 {
                     let gs = tc.graph_mut();
                     let (lo, hi) = if i < j { (i, j) } else { (j, i) };
                     let (x, y) = gs.split_at_mut(hi);
-                    x[lo].0.swap_manager_and_state(&mut y[0].0);
+                    if via_trait {
+                        if SwapManagers::can_swap_graphs(&x[lo].0, &y[0].0).is_ok() {
+                            SwapManagers::swap_graphs(&mut x[lo].0, &mut y[0].0);
+                        } else {
+                            swapped = false;
+                        }
+                    } else {
+                        x[lo].0.swap_manager_and_state(&mut y[0].0);
+                    }
                 }
-                for (k, b) in [(i, &bj), (j, &bi)] {
-                    let g = &tc.graph_ref()[k].0;
-                    let a = snap_g(g);
-                    let fold = fold_g(g);
-                    let hv = ising_view(g);
-                    emit_case(ctx, "move", "swap_manager_and_state", &hv, g.get_cutoff(), b, &a, g.get_manager_ref(), fold, Ok(()));
+                if swapped {
+                    if bi.len != bj.len {
+                        stat(&format!("{}.unequal_lengths", name), 1);
+                    }
+                    for (k, b) in [(i, &bj), (j, &bi)] {
+                        let g = &tc.graph_ref()[k].0;
+                        let a = snap_g(g);
+                        let fold = fold_g(g);
+                        let hv = ising_view(g);
+                        let extra = cutoff_covers(g.get_cutoff(), &a);
+                        emit_case(ctx, "move", name, &hv, g.get_cutoff(), b, &a, g.get_manager_ref(), fold, extra);
+                    }
                 }
                 true
             }
@@ -1804,7 +1980,15 @@ fn main() {
                     0 | 4 => ising_scenario(ctx, &mut rr, ncalls, Some(false)),
                     1 => ising_scenario(ctx, &mut rr, ncalls, Some(true)),
                     2 | 6 => generic_scenario(ctx, &mut rr, ncalls),
-                    5 => field_ladder_scenario(ctx, &mut rr, 30),
+                    5 => {
+                        if (k / 8) % 2 == 0 {
+                            field_ladder_scenario(ctx, &mut rr, 30)
+                        } else {
+                            for _ in 0..4 {
+                                hot_cold_swap_scenario(ctx, &mut rr)
+                            }
+                        }
+                    }
                     _ => ising_scenario(ctx, &mut rr, ncalls, None),
                 });
             }
@@ -1824,7 +2008,15 @@ fn main() {
                         }
                     }
                     2 => generic_scenario(ctx, &mut rr, ncalls),
-                    4 => field_ladder_scenario(ctx, &mut rr, 32),
+                    4 => {
+                        if (k / 5) % 3 == 0 {
+                            for _ in 0..4 {
+                                hot_cold_swap_scenario(ctx, &mut rr)
+                            }
+                        } else {
+                            field_ladder_scenario(ctx, &mut rr, 32)
+                        }
+                    }
                     _ => ising_scenario(ctx, &mut rr, ncalls, Some(true)),
                 });
             }
